@@ -364,6 +364,74 @@ def _fficallback(text):
 
 
 
+# ---------------------------------------------------------------- call-site facts (REVIEW2 item 7 / REVIEW3 C03 ext. 1)
+
+def _c_function(src, name):
+    """text of the C function `name`, comments removed; fail closed unless it is defined exactly once"""
+    hits = re.findall(r"^[\w \*]*\b%s\s*\([^;{}]*\)\s*\{.*?^\}" % re.escape(name), src, re.S | re.M)
+    if len(hits) != 1:
+        raise TranslateError("function %s found %d times" % (name, len(hits)))
+    return _strip_comments(hits[0])
+
+
+def _norm(t):
+    return re.sub(r"\s+", "", t)
+
+
+def _has(body, *fragments):
+    b = _norm(body)
+    return all(_norm(f) in b for f in fragments)
+
+
+def _path_facts(repo, text):
+    """(name, bool, comment): every store path named in the property textually reaches convert_from_object
+    (the one function whose integer branches are the regenerated store_*_prog).  The enclosing function must
+    exist exactly once (else TranslateError: fail closed); a call that is no longer there is recorded as false."""
+    lib = open(os.path.join(repo, "src", "c", "lib_obj.c")).read()
+    cglob = open(os.path.join(repo, "src", "c", "cglob.c")).read()
+    f = lambda n: _c_function(text, n)
+    field = f("convert_field_from_object")
+    vfield = f("convert_vfield_from_object")
+    facts = [
+        ("path_direct_newp", _has(f("direct_newp"),
+            "convert_from_object(cd->c_data, (ct->ct_flags & CT_POINTER) ? ct->ct_itemdescr : ct, init)"),
+         "ffi.new(T, init): direct_newp calls convert_from_object(cd->c_data, <T or its item type>, init)"),
+        ("path_ass_sub", _has(f("cdata_ass_sub"), "ctitem = cd->c_type->ct_itemdescr;",
+                              "return convert_from_object(c, ctitem, v);"),
+         "p[i] = v: cdata_ass_sub ends with return convert_from_object(c, ctitem, v)"),
+        ("path_field", _has(field, "data += cf->cf_offset;", "if (cf->cf_bitshift >= 0)",
+                            "return convert_from_object_bitfield(data, cf, value);",
+                            "else return convert_from_object(data, cf->cf_type, value);"),
+         "convert_field_from_object: data + cf_offset; non-bit-fields: convert_from_object(data, cf->cf_type, value)"),
+        ("path_setattro", _has(f("cdata_setattro"), "return convert_field_from_object(cd->c_data, cf, value);"),
+         "p.f = v: cdata_setattro -> convert_field_from_object(cd->c_data, cf, value)"),
+        ("path_struct_init", _has(f("convert_struct_from_object"),
+                                  "convert_vfield_from_object(data, cf, items[i], optvarsize)",
+                                  "convert_vfield_from_object(data, cf, d_value, optvarsize)")
+                             and _has(vfield, "return convert_field_from_object(data, cf, value);"),
+         "struct initialisers (list and dict): convert_vfield_from_object -> convert_field_from_object"),
+        ("path_array_items", _has(f("convert_array_from_object"), "convert_from_object(data, ctitem, items[i])"),
+         "array initialisers: convert_from_object(data, ctitem, items[i]) per item"),
+        ("path_struct_dispatch", _has(f("convert_from_object"), "return convert_struct_from_object(data, ct, init, NULL);",
+                                      "return convert_array_from_object(data, ct, init);"),
+         "convert_from_object dispatches structs/arrays to the two functions above"),
+        ("path_global_abi", _has(f("dl_write_variable"), "convert_from_object(data, ct, value)"),
+         "ABI-mode lib.g = v: dl_write_variable -> convert_from_object(data, ct, value)"),
+        ("path_global_api", _has(_c_function(lib, "lib_setattr"), "return write_global_var((GlobSupportObject *)x, val);")
+                            and _has(_c_function(cglob, "write_global_var"),
+                                     "return convert_from_object(data, gs->gs_type, obj);"),
+         "API-mode lib.g = v: lib_setattr -> write_global_var -> convert_from_object(data, gs->gs_type, obj)"),
+        ("path_call_arg", _has(f("cdata_call"), "convert_from_object(data, argtype, obj)"),
+         "ABI call arguments: cdata_call's argument loop calls convert_from_object(data, argtype, obj)"),
+        ("path_callback_result", _has(f("general_invoke_callback"), "convert_from_object_fficallback(result, SIGNATURE(1), py_res,")
+                                 and _has(f("convert_from_object_fficallback"), "return convert_from_object(result, ctype, pyobj);"),
+         "callback results: general_invoke_callback -> convert_from_object_fficallback -> ... convert_from_object"),
+        ("path_api_struct_export", _has(text, "convert_from_object,") and "convert_from_object" in _exports(text),
+         "API mode: _cffi_to_c (struct arguments, complex stores) is convert_from_object itself, through cffi_exports[]"),
+    ]
+    return facts
+
+
 def translate(repo):
     text = open(os.path.join(repo, "src", "c", "_cffi_backend.c")).read()
     inc = open(os.path.join(repo, "src", "cffi", "_cffi_include.h")).read()
@@ -417,6 +485,14 @@ def translate(repo):
     L.append("   `skip: return convert_from_object(result, ctype, pyobj);`) *)")
     L.append("Definition fcb_signed_prog : list fstmt :=\n  [%s]." % ";\n   ".join(fcb_signed))
     L.append("Definition fcb_zeroext_prog : list fstmt :=\n  [%s]." % ";\n   ".join(fcb_unsigned))
+    L.append("")
+    L.append("(* call sites: each store path named in the property textually reaches convert_from_object")
+    L.append("   (true: the call is in the source as quoted; false: the enclosing function exists but the call is gone) *)")
+    facts = _path_facts(repo, text)
+    for name, val, comment in facts:
+        L.append("(* %s *)" % comment)
+        L.append("Definition %s : bool := %s." % (name, "true" if val else "false"))
+    L.append("Definition all_paths : list bool :=\n  [%s]." % "; ".join(n for n, _, _ in facts))
     return "\n".join(L) + "\n"
 
 
